@@ -24,7 +24,9 @@ RULE = ("Hypothesis histories (create + 3-12 operations: append, multi-op transa
         "pointer and every pointer rename that may already be on disk, each file reachable from the version it names (independent reader) must have durable "
         "content (fsynced after its last write) and a durable directory entry under its final name (directory fsynced after the rename), and the pointer's own "
         "content must be flushed before its rename. Non-trivial prefix: it ends between the first write of a file of a commit and that commit's pointer flip. "
-        "distinct = (operation kind, normalised step label).")
+        "distinct = (operation kind, normalised step label). Shared handle: two or three committers (append / multi-append transaction) run as threads on ONE "
+        "Table object, followed by one more commit through it; the deterministic scheduler decides at every traced call (exhaustive single preemption for "
+        "append x append, Hypothesis schedules with 1-3 preemptions otherwise); same trace model and invariant at every flip.")
 ASSUMPTIONS = ["POSIX power-loss model: content is durable only after fsync of the inode, a name only after fsync of its directory; fsync through a fresh "
                "read-only descriptor of the same inode is equivalent (Linux)", "durability of newly created directories' own entries is recorded as a diagnostic only",
                "natively written parquet bytes are modelled as one volatile write completed at ParquetWriter.close"]
@@ -67,9 +69,13 @@ class ModelFS:
         return True, ""
 
 
-def replay_trace(events, root, res_labels):
-    """Yields per-event model updates; returns list of (event index, kind, detail) and the pointer-flip records."""
+def replay_trace(events, root, res_labels, preexisting=()):
+    """Yields per-event model updates; returns list of (event index, kind, detail) and the pointer-flip records.
+    `preexisting`: files that existed (and are taken as durable) before the trace began."""
     m = ModelFS()
+    for p0 in preexisting:
+        i0 = m.new_inode(p0)
+        m.dur[p0] = i0
     flips = []  # (event idx, pointer content bytes, pointer inode)
     pend_mkstemp = {}
     diag_new_dirs = 0
@@ -139,6 +145,64 @@ def case_strategy(draw):
     return {"kind": "trace", "steps": [{"op": "append", "n": 1}] + steps}
 
 
+def _evaluate(full, root, out, labels, preexisting=()):
+    """Replays the traced events on the model file system and evaluates the durability invariant at every pointer flip."""
+    fs = DirFS(root)
+    reach_cache = {}
+
+    def reach(ptr_bytes):
+        name = ptr_bytes.decode("utf-8", "replace").strip()
+        if name not in reach_cache:
+            try:
+                v = read_view(fs, metadata_file=name, rows=False)
+                reach_cache[name] = reachable_files(v) | {"metadata/" + name}
+            except ReadError as e:
+                reach_cache[name] = None
+        return name, reach_cache[name]
+
+    events = [e[:6] for e in full]
+    ops = [e[6] for e in full]
+    in_commit_since = None
+    reported = set()
+    last_root_sync_flip = 0
+    for idx, m, flips in replay_trace(events, root, labels, preexisting):
+        out["prefixes"] += 1
+        n, phase, layer, name, target, info = events[idx]
+        # commit window bookkeeping for the non-triviality rule
+        if name in ("os.replace",) and (target.startswith("data/") or target.startswith("metadata/manifests")):
+            in_commit_since = in_commit_since or idx
+            labels["data-file-in-commit"] += 1
+        if in_commit_since is not None:
+            out["nt_keys"].add(f"{ops[idx]}|{c04.norm_label(layer + ':' + name, target)}")
+        is_flip = name == "os.replace" and target == HINT
+        if is_flip:
+            labels["pointer-flip"] += 1
+            in_commit_since = None
+            fidx, content, ino, ino_state = flips[-1]
+            if ino_state["d"] != ino_state["v"]:
+                out["violations"].append(("pointer-content-not-flushed", f"op {ops[idx]}: the pointer's temp file was renamed before its content was fsynced"))
+        # pointer versions that may be on disk now: the durable one and every rename since (adversarial persistence)
+        cands = flips[-1:] if flips else []
+        for fidx, content, ino, _st in cands:
+            name_, rs = reach(content)
+            if rs is None:
+                if is_flip and ("unreadable", name_) not in reported:
+                    reported.add(("unreadable", name_))
+                    out["violations"].append(("pointer-names-unreadable-version", f"op {ops[idx]}: pointer flipped to {name_} which the independent reader cannot resolve"))
+                continue
+            if not is_flip:
+                continue  # durability only grows for immutable files; evaluated at the flip, re-checked cheaply below
+            for f in sorted(rs):
+                ok, why = m.durable(f)
+                if not ok:
+                    cls = "data" if f.startswith("data/") else ("manifest" if "manifests/" in f else "metadata")
+                    key = (cls, why)
+                    if key not in reported:
+                        reported.add(key)
+                        out["violations"].append((f"not-durable-at-flip/{cls}/{why.replace(' ', '-')}",
+                                                  f"op {ops[idx]}: at the pointer flip to {name_}, reachable file {f} has {why}"))
+
+
 def check_case(case):
     import collections
 
@@ -172,74 +236,138 @@ def check_case(case):
                         break
             finally:
                 eng.close()
-        fs = DirFS(root)
-        reach_cache = {}
-
-        def reach(ptr_bytes):
-            name = ptr_bytes.decode("utf-8", "replace").strip()
-            if name not in reach_cache:
-                try:
-                    v = read_view(fs, metadata_file=name, rows=False)
-                    reach_cache[name] = reachable_files(v) | {"metadata/" + name}
-                except ReadError as e:
-                    reach_cache[name] = None
-            return name, reach_cache[name]
-
-        events = [e[:6] for e in full]
-        ops = [e[6] for e in full]
-        in_commit_since = None
-        reported = set()
-        last_root_sync_flip = 0
-        for idx, m, flips in replay_trace(events, root, labels):
-            out["prefixes"] += 1
-            n, phase, layer, name, target, info = events[idx]
-            # commit window bookkeeping for the non-triviality rule
-            if name in ("os.replace",) and (target.startswith("data/") or target.startswith("metadata/manifests")):
-                in_commit_since = in_commit_since or idx
-                labels["data-file-in-commit"] += 1
-            if in_commit_since is not None:
-                out["nt_keys"].add(f"{ops[idx]}|{c04.norm_label(layer + ':' + name, target)}")
-            is_flip = name == "os.replace" and target == HINT
-            if is_flip:
-                labels["pointer-flip"] += 1
-                in_commit_since = None
-                fidx, content, ino, ino_state = flips[-1]
-                if ino_state["d"] != ino_state["v"]:
-                    out["violations"].append(("pointer-content-not-flushed", f"op {ops[idx]}: the pointer's temp file was renamed before its content was fsynced"))
-            # pointer versions that may be on disk now: the durable one and every rename since (adversarial persistence)
-            cands = flips[-1:] if flips else []
-            for fidx, content, ino, _st in cands:
-                name_, rs = reach(content)
-                if rs is None:
-                    if is_flip and ("unreadable", name_) not in reported:
-                        reported.add(("unreadable", name_))
-                        out["violations"].append(("pointer-names-unreadable-version", f"op {ops[idx]}: pointer flipped to {name_} which the independent reader cannot resolve"))
-                    continue
-                if not is_flip:
-                    continue  # durability only grows for immutable files; evaluated at the flip, re-checked cheaply below
-                for f in sorted(rs):
-                    ok, why = m.durable(f)
-                    if not ok:
-                        cls = "data" if f.startswith("data/") else ("manifest" if "manifests/" in f else "metadata")
-                        key = (cls, why)
-                        if key not in reported:
-                            reported.add(key)
-                            out["violations"].append((f"not-durable-at-flip/{cls}/{why.replace(' ', '-')}",
-                                                      f"op {ops[idx]}: at the pointer flip to {name_}, reachable file {f} has {why}"))
+        _evaluate(full, root, out, labels)
         out["nontrivial"] = bool(out["nt_keys"])
     out["labels"] = sorted(labels)
     return out
 
 
+# ---------------- several threads committing through ONE table handle ----------------
+def check_conc(case):
+    """Two committers share one Table object (threads of one process), a third commit follows through the same handle;
+    the interleaving is owned by the deterministic scheduler (a decision at EVERY traced call). The same model file
+    system and the same invariant: at every pointer flip everything reachable is durable - whoever wrote it."""
+    import collections
+
+    from ..conc import run_scheduled, share_handle
+    from ..tbl import make_schema
+    from ..hist import FIELDS
+    from ..world import LocalWorld
+
+    out = {"violations": [], "labels": [], "nontrivial": False, "nt_keys": set(), "prefixes": 0}
+    labels = collections.Counter()
+    with scratch_dir("c16c") as d:
+        root = os.path.realpath(d) + "/t"
+        world = LocalWorld(root)
+        with world.env():
+            t0 = world.create(make_schema(FIELDS))
+            t0.append_records([{"k": 0, "s": "base"}])
+        pre = [os.path.relpath(os.path.join(r, f), root) for r, _d, fs_ in os.walk(root) for f in fs_]
+        full = []
+
+        def on_event(sch, a, phase, label, target, info):
+            layer, name = label.split(":", 1)
+            if phase == "after" and name == "os.replace" and target == HINT:
+                try:
+                    with open(os.path.join(root, HINT), "rb") as fh:
+                        info = dict(info or {}, pointer_content=fh.read())
+                except OSError:
+                    pass
+            full.append((sch.global_steps, phase, layer, name, target, info, f"{case['ops'][a.idx] if a.idx < len(case['ops']) else 'late-append'}"))
+
+        def make_actors(w, sch, clk):
+            t = share_handle(w.open(), sch)
+            actors = []
+            for i, op in enumerate(case["ops"]):
+                if op == "append":
+                    actors.append((f"a{i}", lambda i=i: t.append_records([{"k": 10 + i, "s": f"a{i}"}])))
+                else:
+                    def multi(i=i):
+                        with t.new_transaction() as tx:
+                            tx.append_data([{"k": 20 + i, "s": "m"}])
+                            tx.append_data([{"k": 30 + i, "s": "m"}])
+                            return tx.commit()
+
+                    actors.append((f"m{i}", multi))
+            actors.append(("late", lambda: t.append_records([{"k": 99, "s": "late"}])))
+            return actors
+
+        run = run_scheduled(world, make_actors, case["schedule"], fine=True, on_event=on_event)
+        if run.error is not None:
+            out["violations"].append((f"scheduler/{type(run.error).__name__}", str(run.error)[:200]))
+            return out
+        for oc, val in run.outcomes:
+            labels[f"outcome:{oc}" + (f":{type(val).__name__}" if oc == "raise" else "")] += 1
+        labels["shared-handle-threads"] += 1
+        _evaluate(full, root, out, labels, preexisting=pre)
+        out["nontrivial"] = len(run.flips) >= 2
+        out["decisions"] = run.sched.decisions
+    out["labels"] = sorted(labels)
+    return out
+
+
+CONC_FIXED = [["append", "append"], ["multi", "append"]]
+
+
+def run_conc_enum(task):
+    res = Result()
+    ops = task["ops"]
+    n = len(ops) + 1
+    o = check_conc({"kind": "conc", "ops": ops, "schedule": {"order": list(range(n))}})
+    D = o.get("decisions", 300)
+    scheds = [{"order": list(range(n))}] + [{"order": list(range(n)), "preempt": [[i, j]]} for i in range(1, int(D * 1.1) + 2) for j in range(n - 1)]
+    keys = set()
+    for idx, schd in enumerate(scheds):
+        if idx % task["nshard"] != task["shard"]:
+            continue
+        case = {"kind": "conc", "ops": ops, "schedule": schd}
+        o = check_conc(case)
+        keys.update(o.pop("nt_keys"))
+        res.case(key=None, nontrivial=False, labels=o["labels"] + ["conc-enum-depth1"], sample=case if idx % 97 == 0 else None)
+        res.evaluations += o["prefixes"] - 1
+        for b, w in o["violations"]:
+            res.violation(b + "/shared-handle", w + f" [ops {ops}, schedule {schd}]", case)
+    res.nontrivial.update(f"conc|{k}" for k in keys)
+    return res
+
+
+@st.composite
+def conc_case(draw):
+    ops = draw(st.lists(st.sampled_from(["append", "multi"]), min_size=2, max_size=3))
+    n = len(ops) + 1
+    pre = sorted([draw(st.integers(1, 400)), draw(st.integers(0, n - 2))] for _ in range(draw(st.integers(1, 3))))
+    return {"kind": "conc", "ops": ops, "schedule": {"order": list(range(n)), "preempt": pre}}
+
+
 def plan(tier, seed):
     n = 50 if tier == "quick" else 600
-    return [{"n": n, "seed": seed * 1000 + s, "tier": tier} for s in range(16)]
+    tasks = [{"n": n, "seed": seed * 1000 + s, "tier": tier} for s in range(16)]
+    ns = 4 if tier == "quick" else 8
+    for ops in (CONC_FIXED[:1] if tier == "quick" else CONC_FIXED):
+        tasks += [{"kind": "conc_enum", "ops": ops, "shard": s_, "nshard": ns} for s_ in range(ns)]
+    tasks += [{"kind": "conc_pct", "n": 25 if tier == "quick" else 600, "seed": seed * 1000 + 700 + s, "tier": tier} for s in range(4 if tier == "quick" else 16)]
+    return tasks
 
 
 def run_task(task):
+    if task.get("kind") == "conc_enum":
+        return run_conc_enum(task)
     res = Result()
     keys = set()
     prefixes = [0]
+    if task.get("kind") == "conc_pct":
+        def chk_c(case):
+            o = check_conc(case)
+            keys.update(f"conc|{k}" for k in o.pop("nt_keys"))
+            prefixes[0] += o.pop("prefixes")
+            for i, (b, w) in enumerate(o["violations"]):
+                o["violations"][i] = (b + "/shared-handle", w)
+            return o
+
+        campaign(conc_case(), chk_c, task["n"], task["seed"], res, PROP, shrink=task["tier"] == "thorough")
+        res.nontrivial = set(keys)
+        res.evaluations = prefixes[0]
+        return res
 
     def chk(case):
         o = check_case(case)
@@ -256,6 +384,9 @@ def run_task(task):
 
 
 def replay(case):
+    if case.get("kind") == "conc":
+        o = check_conc(case)
+        return [{"bucket": b + "/shared-handle", "what": w} for b, w in o["violations"]]
     _fix_steps(case["steps"])
     o = check_case(case)
     return [{"bucket": b, "what": w} for b, w in o["violations"]]
